@@ -69,6 +69,14 @@ def experiment(exp_id, scs):
                 for tid, ln in lines.items():
                     expect[tid] = {"TESTDIR": os.path.realpath(ddir), "TESTFILE": name, "SCRUT_TEST": f"{path}:{ln}", "doc": di}
             argv = [SCRUT_BIN, "test", "--no-color", "-r", "json"] + paths
+            shared_pairs = None
+            if sc["env"] == "shared":
+                sdir = os.path.join(pdir, "shared")
+                os.makedirs(sdir, exist_ok=True)
+                for role in ("pre", "post"):
+                    with open(os.path.join(sdir, role + ".md"), "w") as f:
+                        f.write(f"# shared {role}\n\n```scrut\n$ {log_cmd(f'p{pid}{role}')}\n```\n")
+                shared_pairs = {(os.path.realpath(os.path.dirname(x)), os.path.basename(x)) for x in paths}
             wdir = None
             if sc["mode"] == "workdir":
                 wdir = os.path.join(pdir, "W")
@@ -78,10 +86,12 @@ def experiment(exp_id, scs):
                 argv += ["--work-directory", wdir]
             elif sc["mode"] == "keep":
                 argv += ["--keep-temporary-directories"]
+            if shared_pairs is not None:
+                argv += ["-P", os.path.join(pdir, "shared", "pre.md"), "-A", os.path.join(pdir, "shared", "post.md")]
             env = dict(os.environ, TMPDIR=tmproot, RUN_LOG=os.path.join(pdir, "run.log"), NO_COLOR="1")
             env.pop("SCRUT_VERIF_TRACE", None)
             p = subprocess.Popen(argv, cwd=pdir, env=env, stdout=subprocess.PIPE, stderr=subprocess.PIPE, start_new_session=True)
-            procs.append({"p": p, "sc": sc, "pdir": pdir, "wdir": wdir, "expect": expect, "paths": paths})
+            procs.append({"p": p, "sc": sc, "pdir": pdir, "wdir": wdir, "expect": expect, "paths": paths, "shared_pairs": shared_pairs})
         # wait for each; snapshot of the shared temp root right after its exit
         pending = list(procs)
         while pending:
@@ -110,11 +120,16 @@ def experiment(exp_id, scs):
             sc = pr["sc"]
             logp = os.path.join(pr["pdir"], "run.log")
             entries = {}
+            shared_entries = []
             if os.path.exists(logp):
                 for line in open(logp, errors="replace").read().split("\n"):
                     f = line.split(SEP)
                     if len(f) >= 3 + len(VARS):
-                        entries[f[0]] = {"PWD": f[1], **{v: f[2 + j] for j, v in enumerate(VARS)}, "tmp_is_dir": f[2 + len(VARS)]}
+                        e_ = {"PWD": f[1], **{v: f[2 + j] for j, v in enumerate(VARS)}, "tmp_is_dir": f[2 + len(VARS)]}
+                        if f[0].endswith(("pre", "post")):
+                            shared_entries.append((f[0], e_))
+                        else:
+                            entries[f[0]] = e_
             # which top-level names under the temp root belong to this process
             mine = set()
             for e in entries.values():
@@ -142,6 +157,20 @@ def experiment(exp_id, scs):
                     wrong.append("TMPDIR")
                 if wrong:
                     (bad_fresh if tid.endswith("t2") and sc["env"] != "plain" else bad_env).append(f"{tid}:{'+'.join(wrong)}")
+            # test cases of -P / -A documents: once per document, each time with that document's environment
+            if pr["shared_pairs"] is not None:
+                docs_done = [o for o in sc["docs"]]
+                if len(shared_entries) < 1:
+                    bad_env.append("shared:no-log")
+                for tid, e in shared_entries:
+                    want = {"TESTSHELL": bash, "LANG": "C", "LANGUAGE": "C", "LC_ALL": "C", "TZ": "GMT", "COLUMNS": "80", "CDPATH": "", "GREP_OPTIONS": ""}
+                    wrong = sorted(v for v, w in want.items() if e[v] != w)
+                    if (e["TESTDIR"], e["TESTFILE"]) not in pr["shared_pairs"]:
+                        wrong.append("TESTDIR")
+                    if e["tmp_is_dir"] != "dir" or not e["TMPDIR"].startswith((tmproot if sc["mode"] != "workdir" else pr["wdir"]) + "/"):
+                        wrong.append("TMPDIR")
+                    if wrong:
+                        bad_env.append(f"{tid}:{'+'.join(wrong)}")
             w_kept = w_extra = False
             if pr["wdir"]:
                 w_kept = os.path.isdir(pr["wdir"]) and os.path.exists(os.path.join(pr["wdir"], "users-own-file"))
@@ -184,7 +213,8 @@ def run(prop, tier, replay=None):
         rnd = random.Random(s * 101 + 5)
         nsingle, nmulti = (70, 30) if tier == "quick" else (len(singles), 400)
         # always: every (mode, outcome) with one document and plain env; then a seeded sample of the rest
-        base = [x for x in singles if len(x["docs"]) == 1 and x["env"] == "plain" and not x["samename"]]
+        base = [x for x in singles if not x["samename"] and ((len(x["docs"]) == 1 and x["env"] == "plain")
+                                                             or (x["env"] == "shared" and x["docs"] in (["pass"], ["pass", "fail"], ["timeout"])))]
         rest = [x for x in singles if x not in base]
         chosen = base + rnd.sample(rest, max(0, min(len(rest), nsingle - len(base))))
         exps = [[x] for x in chosen]
